@@ -3,7 +3,7 @@ package main
 // corpus/C03/*.c03 : hand-written edge cases and minimised past findings, run
 // first.  One step per line:
 //
-//   nonce A n | data A keyhex valhex | del A keyhex | code A len | bal A n |
+//   nonce A n | data A keyhex valhex | del A keyhex | code A len | codehex A hex | bal A n |
 //   addbal A n | suicide A | iroot | snap | revert | ft A name n
 //   commit [fail=k] [die] [retry]        -- state.Commit(true) + trieDB.Commit(root)
 //   big                                   -- use large values from here on
@@ -111,6 +111,13 @@ func (r *runner) runCorpus(dir string) {
 				adb.SetCode(a, c)
 				w.codes[crypto.Keccak256Hash(c)] = true
 				touched[a] = true
+			case "codehex": // codehex A hex : SetCode with the given bytes
+				open()
+				a := corpusAddr(f[1])
+				c, _ := hx.UnHex(f[2])
+				adb.SetCode(a, c)
+				w.codes[crypto.Keccak256Hash(c)] = true
+				touched[a] = true
 			case "bal", "addbal":
 				open()
 				a := corpusAddr(f[1])
@@ -161,7 +168,9 @@ func (r *runner) runCorpus(dir string) {
 						p.skipRead = true
 					}
 				}
-				w.commitPrepared(adb, touched, p)
+				if res := hx.Guard(func() string { w.commitPrepared(adb, touched, p); return "" }); res != "" {
+					r.violate("panic-in-commit-path", "panic while committing or re-reading a state: "+res)
+				}
 				adb = nil
 				snaps = nil
 			default:
